@@ -91,6 +91,16 @@ CLAIMED['C12'] = dict(
     technique="TLA+ composition model checked by TLC + TLC trace validation against independent one-vs-rest reference fits",
     design_ref="DESIGN.md §5.6, §6 C12")
 
+CLAIMED['C10'] = dict(
+    text="Design: TLC model-checks specs/Parallel.tla (3 features in every iteration order, 2 and 3 workers, dispatch / completion / collection interleavings, imap_unordered and apply_async "
+         "collection) with Inv_C10 (the merged result is FitOne(f) for every feature) and termination. Binding (spec->code): every terminal state of the TLC state dump is a schedule (iteration "
+         "order, completion order) that is replayed on the real ContinuousDiscretizer, Discretizer and BinaryCarver through a fake Pool (tasks executed in the completion order, pickled arguments "
+         "and results); further runs use feature subsets, shuffled list / column orders, child interpreters with other PYTHONHASHSEED values and real multiprocessing pools. TLC "
+         "(ParallelTrace.tla) compares every run's per-feature projection with the feature fitted alone, sequentially.",
+    note="Trusted: TLC, harness/acverif/fakepool.py (Pool stand-in patched into the three modules that import Pool), projection by canonical text. Real OS scheduling is not controllable; real pools are smoke runs.",
+    technique="TLA+ scheduling model checked by TLC; every TLC behaviour replayed into the code through a schedule-driven fake pool",
+    design_ref="DESIGN.md §5.6, §6 C10")
+
 NOT_YET = "check not built yet in this round (planned, see DESIGN.md §9); no claim is made"
 
 checks, na = [], []
